@@ -216,6 +216,19 @@ theorem localWrapperName_injective_fixed : localWrapperName_injective Cfg.fixed 
     simpa [wrapperName, Cfg.fixed, namedName, Tys.isEmpty] using h
 
 
+/-- A go/ssa method wrapper and a declared method with the same receiver and method name get the same symbol. Go allows
+    the pair when the names are unexported and belong to different packages (`type T struct{ b.U }` with its own `m`
+    and the promoted `b.U.m`): the model, like the code, has no package qualifier for unexported method names
+    (replayed by the check: `b.Call(t)` runs `a`'s method). -/
+theorem wrapper_vs_method_counterexample :
+    linkName (.wrapper (.method "s/a".toList "T".toList .nil false "m".toList))
+      = linkName (.method "s/a".toList "T".toList .nil false "m".toList) ∧
+    Entity.wrapper (.method "s/a".toList "T".toList .nil false "m".toList)
+      ≠ Entity.method "s/a".toList "T".toList .nil false "m".toList := by
+  constructor
+  · decide
+  · intro h; cases h
+
 /-! ## linkname / export directives -/
 
 /-- `//go:linkname f C.sym` binds exactly the declared external symbol: a reference to `f` resolves to `sym`,
